@@ -6,7 +6,7 @@ import os, subprocess, json
 from lib import vf
 
 MANIFEST = {
- 'text': "Coq theorems: the final sort.Stable by position is a function of the per-position sub-sequences only (uniqueness of stable sorting), hence erases every reordering caused by map iteration unless two diagnostics share a position; a site that ranges over a map with pairwise different positions is deterministic after the sort; a site that visits sorted keys is deterministic even at one shared position (every `for ... range <map>` loop of the source is re-listed with go/types on every run and is one of 70 loops classified by hand (keys sorted first / order-independent computation / one report per entry at its own positions / element type of a merged object); the places of the source that read the clock, the environment, the process, the machine or a random source are re-listed from the .go files on every run and each is a known one (elapsed-time log, default working directory, pool size); instances: format() placeholders, missing required inputs of actions and reusable workflows, visiting jobs / needs roots / registered runner labels in source order — the code after six fix: commits), while the unsorted same-position shape is refuted by a witness; LintFiles assembles per-file results by slot, independent of goroutine completion order. All for every map iteration order (Permutation) and every completion order. Tie: the model predicts the order of same-position diagnostics for generated cases at the modelled sites (vm_compute vs the implementation). Partial: rules/sites not modelled and real goroutine scheduling are covered by the repetition oracle only (every corpus file, project and generated site workflow linted R times on fresh Linters under GOMAXPROCS 1/2/4/16, results byte-compared). A run in which several files end in a fatal error returns the error of the first failing file in argument order whatever the order in which the goroutines finish (coq/Out/FatalOrder.v: slots written in any permutation are the per-file results; the errgroup-first-error behaviour before the repair ec824d0 is refuted), tied by runs with several unreadable files.",
+ 'text': "Coq theorems: the final sort.Stable by position is a function of the per-position sub-sequences only (uniqueness of stable sorting), hence erases every reordering caused by map iteration unless two diagnostics share a position; a site that ranges over a map with pairwise different positions is deterministic after the sort; a site that visits sorted keys is deterministic even at one shared position (every `for ... range <map>` loop of the source is re-listed with go/types on every run and is one of 70 loops classified by hand (keys sorted first / order-independent computation / one report per entry at its own positions / element type of a merged object); the places of the source that read the clock, the environment, the process, the machine or a random source are re-listed from the .go files on every run and each is a known one (elapsed-time log, default working directory, pool size); instances: format() placeholders, missing required inputs of actions and reusable workflows, visiting jobs / needs roots / registered runner labels in source order — the code after six fix: commits), while the unsorted same-position shape is refuted by a witness; LintFiles assembles per-file results by slot, independent of goroutine completion order. All for every map iteration order (Permutation) and every completion order. Tie: the model predicts the order of same-position diagnostics for generated cases at the modelled sites (vm_compute vs the implementation). Partial: rules/sites not modelled and real goroutine scheduling are covered by the repetition oracle only (every corpus file, project and generated site workflow linted R times on fresh Linters under GOMAXPROCS 1/2/4/16, results byte-compared). A run in which several files end in a fatal error returns the error of the first failing file in argument order whatever the order in which the goroutines finish (coq/Out/FatalOrder.v: slots written in any permutation are the per-file results; the errgroup-first-error behaviour before the repair ec824d0 is refuted), tied by runs with several unreadable files. The comparison of the final sort itself (ByErrorPosition.Less) is tied to pos_leb by sorting generated lists whose lines and columns lie around powers of two (cases_sort).",
  'note': "Trusted: Coq kernel; Go's sort.Stable is a stable sort (then it computes ssort by ssort_unique); models of the emission sites are hand-written and correspondence-checked on generated cases; Go's map iteration is modelled as an arbitrary permutation. Not proved: determinism of unmodelled rules (repetition sampling only), Go scheduler behaviour.",
  'technique': "machine-checked proof in Coq (uniqueness of stable sorting, permutation invariance of map-iteration sites) + vm_compute correspondence + repetition oracle",
 }
@@ -98,7 +98,15 @@ def run(ctx):
     if bad3:
         ctx.broken.append('correspondence C02/fatal (which file the fatal error of a run names vs Out/FatalOrder.v: the first failing file in argument order): %d of %d runs disagree' % (len(bad3), len(t3)))
         ctx.first_disagreement = {'site': 'fatal', 'case': t3[bad3[0]]}
-    t1 = t1 + t3
+    t4 = vf.read_lines(os.path.join(ctx.out, 'cases_sort.txt'))
+    bad4, err4 = vf.coq_cases(ctx, 'C02s', imports, '(list (N * N * N))', 'run_sort', t4, shard=200, ordered=True)
+    if err4:
+        ctx.broken.append('correspondence cases (final sort) did not evaluate: ' + err4[-400:])
+    if bad4:
+        ctx.broken.append('correspondence C02/sort (sort.Stable(ByErrorPosition) on a list of diagnostics of one file vs the stable sort by (line, column) of Out/StableSort.v, on which C02_final_sort_unique rests: with another comparison two diagnostics at different positions can compare as equal and keep the order of the map iteration that emitted them): %d of %d lists disagree' % (len(bad4), len(t4)))
+        ctx.first_disagreement = {'site': 'sort', 'case': t4[bad4[0]]}
+    t1 = t1 + t3 + t4
+    bad1 = bad1 + bad4
     bad1 = bad1 + bad3
     ctx.coverage.update({
         'obligations': nthm, 'discharged': ndis,
